@@ -1,14 +1,16 @@
-//! C16 (a,b): mp4san::parse::BoxHeader -- parse, put_buf, encoded_len, box_data_size, with_data_size,
+//! C16 (a,b): mp4san::parse::BoxHeader (and (c): MoovBox / TrakBox / ... accessors, see `lazy`) -- parse, put_buf, encoded_len, box_data_size, with_data_size,
 //! with_u32_data_size.  Prints what the implementation computes; the property is evaluated elsewhere.
 #[path = "common.rs"]
 mod common;
 use common::{hex, unhex};
-use mp4san::parse::{BoxHeader, BoxType, BoxUuid, FourCC, ParseError};
+use bytes::BytesMut;
+use mp4san::parse::{BoxHeader, BoxType, BoxUuid, FourCC, MoovBox, ParseBox, ParseError, ParsedBox};
 
 fn main() {
     common::main_loop(|kind, args| match kind {
         "hdrparse" => hdrparse(args),
         "hdrmk" => hdrmk(args),
+        "lazy" => lazy(args),
         _ => format!("unknown-kind {kind}"),
     });
 }
@@ -131,4 +133,64 @@ fn hdrmk(args: &[&str]) -> String {
             )
         }
     }
+}
+
+/// C16 (c): `lazy <moov payload hex> <ops>`: MoovBox::parse, then for every op `i.k`: iterate traks() up to the i-th trak
+/// (stopping at the first error) and call the first k accessors of TrakBox::co_mut on it
+/// (1 mdia_mut, 2 minf_mut, 3 stbl_mut, 4 co_mut + entry_count); finally put_buf / encoded_len of the moov value.
+fn lazy(args: &[&str]) -> String {
+    let payload = unhex(args[0]);
+    let mut buf = BytesMut::from(&payload[..]);
+    let mut moov = match MoovBox::parse(&mut buf) {
+        Ok(m) => m,
+        Err(e) => return format!("err parse {} step=parse", kind_of(e.get_ref())),
+    };
+    let mut failed: Option<(usize, String)> = None;
+    if args[1] != "-" {
+        for (step, op) in args[1].split(',').enumerate() {
+            let (i, k) = op.split_once('.').unwrap();
+            let (i, k): (usize, usize) = (i.parse().unwrap(), k.parse().unwrap());
+            if let Err(e) = lazy_op(&mut moov, i, k) {
+                failed = Some((step, kind_of(&e)));
+                break;
+            }
+        }
+    }
+    let mut out = Vec::new();
+    moov.put_buf(&mut out);
+    let tail = format!("put={} elen={}", if out.is_empty() { "-".to_string() } else { hex(&out) }, moov.encoded_len());
+    match failed {
+        None => format!("ok {tail}"),
+        Some((step, kind)) => format!("err parse {kind} step={step} {tail}"),
+    }
+}
+
+fn lazy_op(moov: &mut MoovBox, i: usize, k: usize) -> Result<(), ParseError> {
+    for (j, trak) in moov.traks().enumerate() {
+        let trak = trak.map_err(|e| e.into_inner())?;
+        if j == i {
+            match k {
+                0 => {}
+                1 => {
+                    trak.mdia_mut().map_err(|e| e.into_inner())?;
+                }
+                2 => {
+                    trak.mdia_mut().map_err(|e| e.into_inner())?.minf_mut().map_err(|e| e.into_inner())?;
+                }
+                3 => {
+                    trak.mdia_mut()
+                        .map_err(|e| e.into_inner())?
+                        .minf_mut()
+                        .map_err(|e| e.into_inner())?
+                        .stbl_mut()
+                        .map_err(|e| e.into_inner())?;
+                }
+                _ => {
+                    let _ = trak.co_mut().map_err(|e| e.into_inner())?.entry_count();
+                }
+            }
+            break;
+        }
+    }
+    Ok(())
 }
